@@ -1,13 +1,10 @@
 (* C05 — property theorems only: each closed by [exact lemma], followed by Print Assumptions. *)
 From Coq Require Import List ZArith Bool.
-From Verif Require Import MiniGo.Syntax MiniGo.Sem MiniGo.Fast C05.Proof C05.Sim C05.Switch C05.Correct C05.Final C05.Targets.
+From Verif Require Import MiniGo.Syntax MiniGo.Sem MiniGo.Fast C05.Proof C05.Sim C05.Switch C05.Correct C05.Final C05.Targets C05.GotoLbl C05.Goto.
 Import ListNotations.
 
-(* Forward simulation (all programs, all fuel).  _partial: the only excluded construct is the goto STATEMENT
-   ([nogoto]); labelled statements, labelled/unlabelled break and continue through nested blocks with locals,
-   loops and switches, the three for forms, switch with constant/expression tags, default in any position,
-   fallthrough, the switch2.go jump table and return are all covered.  Backward goto is tied by the
-   correspondence run (outputs + IP trace) and the compiled-Go differential only. *)
+(* Forward simulation (all programs without the goto STATEMENT, all fuel), with no premise on labels.  Kept under its
+   name because C38 imports it; C05_compile_correct below removes the [nogoto] restriction. *)
 Theorem C05_compile_correct_partial : forall nres body fuel o st' tr' code,
   nogoto body = true ->
   exec_func fuel nres body = Some (o, st', tr') -> finished o ->
@@ -15,6 +12,33 @@ Theorem C05_compile_correct_partial : forall nres body fuel o st' tr' code,
   exists fuel' m, run fuel' code (init_state nres) = Some m /\ m_tr m = tr' /\ exists k, skipn k (m_env m) = st'.
 Proof. exact compile_correct_partial. Qed.
 Print Assumptions C05_compile_correct_partial.
+
+(* Forward simulation for ALL MiniGo programs, the goto statement included, and all fuel: no construct is excluded.
+   The two premises are Go's own static rules, not restrictions of the fragment:
+     wfl  : a label labels one statement (not a statement sequence) and an else branch is a block or another if
+            (the shape the Go grammar gives to every program);
+     uniq : a label is not declared again where it is already visible ("label L already defined" in Go;
+            implied by NoDup of all labels of the function: C05_compile_correct_nodup).
+   gotos that are not backward gotos to a visible label make compile_func fail (premise compile_func = Some code), as in
+   gomacro.  Invariant used for goto (Goto.v, GotoLbl.v): a pending goto l is a machine already at the address the Comp
+   chain records for l, having left upn envs; the label table of a Comp grows as the statements of its list are
+   compiled (label extension), later labels never change what an earlier goto resolved to (goto_ext, needs uniq), and the
+   suffix that the semantics restarts at (find_label) is compiled in place at exactly that address (find_label_compile). *)
+Theorem C05_compile_correct : forall nres body fuel o st' tr' code,
+  wfl body = true -> uniq body ->
+  exec_func fuel nres body = Some (o, st', tr') -> finished o ->
+  compile_func nres body = Some code ->
+  exists fuel' m, run fuel' code (init_state nres) = Some m /\ m_tr m = tr' /\ exists k, skipn k (m_env m) = st'.
+Proof. exact compile_correct. Qed.
+Print Assumptions C05_compile_correct.
+
+Theorem C05_compile_correct_nodup : forall nres body fuel o st' tr' code,
+  wfl body = true -> NoDup (all_labels body) ->
+  exec_func fuel nres body = Some (o, st', tr') -> finished o ->
+  compile_func nres body = Some code ->
+  exists fuel' m, run fuel' code (init_state nres) = Some m /\ m_tr m = tr' /\ exists k, skipn k (m_env m) = st'.
+Proof. exact compile_correct_nodup. Qed.
+Print Assumptions C05_compile_correct_nodup.
 
 (* the constant-case jump table of switch2.go selects the clause the linear scan of switch.go selects *)
 Theorem C05_switch_gotomap_equiv : forall v st cs hb t,
@@ -83,4 +107,25 @@ Example ex_hyp : nogoto ex_prog = true /\
 Proof.
   split; [reflexivity|]. eexists _, _, _, _. split; [vm_compute; reflexivity|].
   split; [right; reflexivity|]. split; [vm_compute; reflexivity|]. split; reflexivity.
+Qed.
+
+(* non-vacuity for goto: a backward goto out of a block with a local, nested in a loop, to a label at function top level
+   (finding C05-1's shape), plus a second label inside the loop body; all premises hold, both sides give the same trace *)
+Definition ex_goto : stmt :=
+  SSeq (SLabeled 1 (SAssign 0 0 (EAdd (EVar 0 0) (EConst 1))))
+  (SSeq (SEmit (EVar 0 0))
+  (SSeq (SFor 1 [SiAssign 0 0 (EConst 0)] (Some (ELt (EVar 0 0) (EConst 2))) [SiAssign 0 0 (EAdd (EVar 0 0) (EConst 1))] 0
+           (SSeq (SLabeled 2 (SEmit (EAdd (EConst 10) (EVar 0 0))))
+           (SSeq (SAssign 1 1 (EAdd (EVar 1 1) (EConst 1)))
+           (SSeq (SIf (EEq (EVar 1 1) (EConst 1)) 0 (SGoto 2) false SSkip)
+                 (SIf (ELt (EVar 1 0) (EConst 2)) 1 (SSeq (SAssign 0 0 (EConst 7)) (SGoto 1)) false SSkip)))))
+        SReturn)).
+
+Example ex_goto_hyp : wfl ex_goto = true /\ NoDup (all_labels ex_goto) /\
+  exists o st tr code, exec_func 80 2 ex_goto = Some (o, st, tr) /\ finished o /\ compile_func 2 ex_goto = Some code /\
+                       rev tr = [1; 10; 10; 2; 10; 11]%Z.
+Proof.
+  split; [reflexivity|]. split; [repeat constructor; simpl; intuition discriminate|].
+  eexists _, _, _, _. split; [vm_compute; reflexivity|].
+  split; [right; reflexivity|]. split; [vm_compute; reflexivity|]. reflexivity.
 Qed.
